@@ -7,6 +7,28 @@ HERE = Path(__file__).resolve().parent.parent
 
 # id: (level, technique, level text, level note)
 CHECKS = {
+ 'C01': ('exploration',
+         'reference-model monitor (np.asarray/astype/np.full) + independent decoder over a generated structure grid',
+         'Generated creation calls over the product of type, byte order, memory layout, rank, input form, dtype argument, '
+         'chunk length, fill value/function and special bit patterns are executed against the real asarray/create_array; '
+         'the returned handle, a fresh handle and an independent decoder of the raw files must all equal the NumPy '
+         'reference bit for bit for every chunk length; unsupported element types must raise TypeError with nothing left '
+         'on disk. Sampled, not exhaustive: the grid is a product of ~10 dimensions.',
+         'NumPy conversion semantics are the reference; platform-defined casts are excluded from the generators.'),
+ 'C02': ('exploration',
+         'independent format decoder (no Darr code) evaluated after every step of generated histories; struct.pack byte table',
+         'After every step of random histories (create/append/iterappend/assign/truncate/metadata/overwrite re-creation) a '
+         'decoder sharing no code with Darr reads the three files and must reconstruct exactly what live and fresh Darr '
+         'handles report; the 13x2 type/byte-order table is enumerated completely against struct.pack bytes through four '
+         'different writers.',
+         'Trusts vlib/decoder.py as transcription of the documented format and struct.pack as encoding reference.'),
+ 'C03': ('exploration',
+         'history + executable NumPy model; bounded-exhaustive op sequences plus long random histories',
+         'All operation sequences up to length 3 (quick) / 4 (thorough) over an 18-op alphabet from five start shapes, plus '
+         'long random histories over 29 op kinds and all 26 type/byte-order combinations, run on the real Array; after '
+         'each step live handle, fresh handle and raw file are compared with a NumPy model, appended/truncated files are '
+         'checked to preserve the leading bytes, and rejected calls must raise and leave file and descriptor unchanged.',
+         'NumPy concatenate/slicing/assignment semantics are the reference; ambiguous inputs (bool indices, NaN->int) excluded.'),
  'C14': ('exploration',
          'closed-form oracle over exhaustively enumerated parameter tuples + icontract postcondition on fit_frames',
          'Every (n, chunklen, stepsize, start, end, remainder) tuple with n up to a bound is executed against the real '
